@@ -401,7 +401,10 @@ impl FmtArgument {
 impl Parse for FmtArgument {
     fn parse(input: ParseStream) -> syn::Result<Self> {
         Ok(Self {
-            alias: (input.peek(syn::Ident) && input.peek2(token::Eq))
+            // `peek2(token::Eq)` also matches the first character of `==`, which starts no alias.
+            alias: (input.peek(syn::Ident)
+                && input.peek2(token::Eq)
+                && !input.peek2(token::EqEq))
                 .then(|| Ok::<_, syn::Error>((input.parse()?, input.parse()?)))
                 .transpose()?,
             expr: input.parse()?,
